@@ -81,7 +81,10 @@ def attribute(u, r):
         elif panicky and 'C14' in fprops:
             f.props = ['C14']
         else:
-            f.props = list(fprops)
+            # non-panic obligations (postconditions, invariants, asserts) speak about the function's
+            # functional properties; C14 is only implicated by panic-type obligations or explicit tags
+            rest = [p for p in fprops if p != 'C14']
+            f.props = rest if rest else list(fprops)
         o = u.origin(f.primary_line)
         if anchor is None and o is not None:
             if o[0] == 'repo':
